@@ -22,11 +22,11 @@
 #define VF_L CBOR_MAX_STACK_SIZE
 
 enum {
-  K_DECODED = VC_USER, K_CONSTRUCTED, K_OUTSIDE, K_NODES, K_SHARED, K_PARTIAL, K_BUFSIZES, K_BYTES_CMP, K_ROUNDTRIPS, K_NAN, K_SUFFIXES, K_CONCATS, K_ITEMS_SPLIT, K_CORPUS,
+  K_DECODED = VC_USER, K_CONSTRUCTED, K_OUTSIDE, K_NODES, K_SHARED, K_PARTIAL, K_BUFSIZES, K_BYTES_CMP, K_ROUNDTRIPS, K_NAN, K_SUFFIXES, K_CONCATS, K_ITEMS_SPLIT, K_CORPUS, K_WIDE,
   K_ENC0 /* PROP 7: encoder counters live in chk_encode.c slots */
 };
 static unsigned bn_max, dfs_k, cdepth;
-static uint64_t bn_units, dfs_units, con_units, enc_units, cat_units, cor_units;
+static uint64_t bn_units, dfs_units, con_units, enc_units, cat_units, cor_units, wide_units, dfs1_units;
 static vf_sb why, sb2;
 
 #if PROP == 7
@@ -318,24 +318,22 @@ static void add_y(const uint8_t* b, size_t n) {
   }
 }
 static void c14_x(const uint8_t* x, size_t n) {
-  /* reference parse of x alone, exactly-sized */
+  /* x is an acceptable item encoding iff the reference decoder accepts it and consumes it entirely */
+  rdecode rd;
+  ref_arena_reset();
+  ref_decode(x, n, VF_L, va_cap, NULL, &rd);
+  if (!rd.ok || rd.read != n) return;
+  rnode* want = rd.tree; /* lives in the reference arena until the next reset: no reset below */
   va_reset();
   struct cbor_load_result r0;
   uint8_t* in = vf_guard_put(x, n);
   cbor_item_t* t0 = cbor_load(in, n, &r0);
-  if (!t0) {
-    if (va.live) va_release_all();
-    return;
-  }
+  bool alone_ok = t0 != NULL;
   vf_cnt(K_DECODED, 1);
   vf_cnt(VC_DISTINCT, 1);
-  ref_arena_reset();
-  rnode* w0 = vf_walk(t0);
-  vf_state(ref_tree_hash(w0));
-  if (r0.read != n) { /* x is an accepted *item* only if it is consumed entirely; otherwise it is x' || garbage: skip */
-    cbor_decref(&t0);
-    return;
-  }
+  vf_state(ref_tree_hash(want));
+  if (t0 && r0.read != n) vf_fail(NULL, "x alone: read = %zu of %zu", r0.read, n);
+  if (t0) cbor_decref(&t0);
   uint8_t cat[12 * 16 + 32];
   memcpy(cat, x, n);
   for (size_t i = 0; i < ny; i++) {
@@ -349,17 +347,17 @@ static void c14_x(const uint8_t* x, size_t n) {
     struct cbor_load_result r1;
     uint8_t* in1 = vf_guard_put(cat, tot);
     cbor_item_t* t1 = cbor_load(in1, tot, &r1);
-    if (!t1)
-      vf_fail(NULL, "x decodes alone but x||y is rejected (code %d at %zu)", r1.error.code, r1.error.position);
-    else {
-      if (r1.read != n) vf_fail(NULL, "bytes read = %zu with a suffix, %zu alone", r1.read, n);
+    if (!t1) {
+      if (alone_ok) vf_fail(NULL, "x decodes alone but x||y is rejected (code %d at %zu)", r1.error.code, r1.error.position);
+    } else {
+      if (!alone_ok) vf_fail(NULL, "x||y decodes but x alone is rejected (code %d at %zu): the result depends on what follows the item", r0.error.code, r0.error.position);
+      if (r1.read != n) vf_fail(NULL, "bytes read = %zu with a suffix, the item is %zu bytes long", r1.read, n);
       rnode* w1 = vf_walk(t1);
       vf_sb_reset(&why);
-      if (!ref_equal(w0, w1, RC_REFCOUNT1 | RC_DEF_FULL, &why)) vf_fail(NULL, "tree of x changes when y follows: %s", why.s);
+      if (!ref_equal(want, w1, RC_REFCOUNT1 | RC_DEF_FULL, &why)) vf_fail(NULL, "tree of x changes when y follows: %s", why.s);
       cbor_decref(&t1);
     }
   }
-  cbor_decref(&t0);
   if (va.live) {
     vf_fail(NULL, "leak");
     va_release_all();
@@ -448,6 +446,38 @@ static void cat_unit(uint64_t u) {
 }
 #endif
 
+#if PROP != 14
+/* wide, partially filled definite containers: capacity and entry count on different sides of a head-width boundary
+ * (the decoder can only produce full ones) */
+static const size_t WCAP[] = {23, 24, 25, 255, 256, 257};
+static void wide_unit(uint64_t u) {
+  size_t cap = WCAP[u % 6];
+  int map = (int)(u / 6 % 2), nest = (int)(u / 12 % 3);
+  size_t fills[8] = {0, 1, 2, 23, 24, cap - 1, cap, cap / 2};
+  va_cap = 1 << 20;
+  for (int fi = 0; fi < 8; fi++) {
+    size_t f = fills[fi];
+    if (f > cap) continue;
+    uint8_t d[8] = {(uint8_t)cap, (uint8_t)(cap >> 8), (uint8_t)map, (uint8_t)nest, (uint8_t)f, (uint8_t)(f >> 8)};
+    vf_case("wide", d, 6);
+    va_reset();
+    cbor_item_t* c = map ? cbor_new_definite_map(cap) : cbor_new_definite_array(cap);
+    cbor_item_t* x = cbor_build_uint8(7);
+    cbor_item_t* y = cbor_build_string("v");
+    for (size_t i = 0; i < f; i++) {
+      bool ok = map ? cbor_map_add(c, (struct cbor_pair){.key = x, .value = y}) : cbor_array_push(c, i & 1 ? y : x);
+      if (!ok) vf_fail(NULL, "insertion %zu into a definite container of capacity %zu refused", i, cap);
+    }
+    cbor_decref(&x);
+    cbor_decref(&y);
+    cbor_item_t* top = c;
+    if (nest == 1) { top = cbor_build_tag(24, c); cbor_decref(&c); }
+    if (nest == 2) { top = cbor_new_indefinite_array(); (void)cbor_array_push(top, c); (void)cbor_array_push(top, c); cbor_decref(&c); }
+    vf_cnt(K_WIDE, 1);
+    judge_tree(top, true);
+  }
+}
+#endif
 static void unit(uint64_t u) {
   va_cap = 64 * 1024;
 #if PROP == 14
@@ -455,7 +485,9 @@ static void unit(uint64_t u) {
   u -= bn_units;
   if (u < dfs_units) { vf_dfs_unit(&VF_SIGMA, dfs_k, u, VF_L, va_cap, c14_seq_cb, NULL); return; }
   u -= dfs_units;
-  cat_unit(u);
+  if (u < cat_units) { cat_unit(u); return; }
+  u -= cat_units;
+  vf_dfs_unit(&VF_SIGMA1, vf_tier ? 6 : 5, u, VF_L, va_cap, c14_seq_cb, NULL); /* deeper, structural alphabet */
 #else
   if (u < bn_units) { vf_bn_unit(bn_max, u, bn_cb, NULL); return; }
   u -= bn_units;
@@ -472,12 +504,14 @@ static void unit(uint64_t u) {
     return;
   }
   u -= cor_units;
+  if (u < wide_units) { wide_unit(u); return; }
+  u -= wide_units;
 #if PROP == 7
   vf_encoders_unit(u);
 #endif
 #endif
 }
-static uint64_t units(void) { return bn_units + dfs_units + con_units + cor_units + enc_units + cat_units; }
+static uint64_t units(void) { return bn_units + dfs_units + con_units + cor_units + wide_units + enc_units + cat_units + dfs1_units; }
 static void init(void) {
   vf_enum_init();
   vf_sets_init();
@@ -489,6 +523,7 @@ static void init(void) {
   bn_units = vf_bn_units();
   dfs_units = vf_dfs_units(&VF_SIGMA);
   cat_units = 64;
+  dfs1_units = vf_dfs_units(&VF_SIGMA1);
   /* suffix set Y: empty, every single byte, every head of Sigma, a few complete items, garbage */
   add_y((const uint8_t*)"", 0);
   for (unsigned v = 0; v < 256; v++) {
@@ -511,6 +546,7 @@ static void init(void) {
   con_units = 128;
   vf_corpus_init();
   cor_units = vf_corpus_count();
+  wide_units = 36;
 #if PROP == 7
   vf_encoders_init();
   enc_units = vf_encoders_units();
@@ -520,6 +556,13 @@ static void init(void) {
 static void replay(const char* tag, const uint8_t* d, size_t len) {
   va_cap = 64 * 1024;
   if (!strcmp(tag, "bytes")) from_bytes(d, len, false);
+#if PROP != 14
+  else if (!strcmp(tag, "wide") && len >= 6) {
+    size_t cap = d[0] | (size_t)d[1] << 8;
+    for (uint64_t u = 0; u < 36; u++)
+      if (WCAP[u % 6] == cap && (int)(u / 6 % 2) == d[2] && (int)(u / 12 % 3) == d[3]) wide_unit(u);
+  }
+#endif
   else if (!strcmp(tag, "ctree")) {
     va_cap = 1 << 20;
     vt_choices ch;
@@ -585,12 +628,12 @@ struct vf_check vf_the_check = {
 #else
     .property = "C14",
     .level = "exploration",
-    .rule = "(x, y) pairs: x = every byte string of B(n) and every accepted DFS sequence that decodes alone and is consumed entirely; y = every string of the suffix set Y; "
+    .rule = "(x, y) pairs: x = every byte string of B(n) and every DFS sequence that the reference decoder accepts and consumes entirely (whether or not the library accepts it alone); y = every string of the suffix set Y; "
             "plus every concatenation of 2..6 items from an 8-item alphabet (8^2+..+8^6 sequences) split by the advance-by-read loop; distinct_nontrivial = distinct x + distinct 6-item sequences",
 #endif
     .bounds = {
 #if PROP == 14
-        "x from B(2) and DFS to 3 heads; |Y| ~ 340; all concatenations of <= 6 items over 8 items", "x from B(3) and DFS to 4 heads; same Y; same concatenations"
+        "x from B(2), DFS over Sigma to 3 heads and over Sigma' to 5 heads; |Y| ~ 350; all concatenations of <= 6 items over 8 items", "x from B(3), DFS over Sigma to 4 and Sigma' to 6 heads; same Y; same concatenations"
 #else
         "B(3) + DFS over Sigma to 4 heads + constructed grammar depth 2", "B(3) + DFS over Sigma to 5 heads + constructed grammar depth 2"
 #endif
@@ -603,7 +646,7 @@ struct vf_check vf_the_check = {
                  [K_DECODED] = "decoder_derived_trees", [K_CONSTRUCTED] = "constructed_trees", [K_OUTSIDE] = "outside_domain", [K_NODES] = "tree_nodes_walked",
                  [K_SHARED] = "trees_with_shared_subitems", [K_PARTIAL] = "trees_with_partially_filled_definite_containers", [K_BUFSIZES] = "buffer_sizes_tried",
                  [K_BYTES_CMP] = "byte_exact_comparisons", [K_ROUNDTRIPS] = "load_of_serialization", [K_NAN] = "trees_with_NaN", [K_SUFFIXES] = "xy_pairs",
-                 [K_CONCATS] = "concatenations", [K_ITEMS_SPLIT] = "items_split", [K_CORPUS] = "boundary_corpus_items",
+                 [K_CONCATS] = "concatenations", [K_ITEMS_SPLIT] = "items_split", [K_CORPUS] = "boundary_corpus_items", [K_WIDE] = "wide_partially_filled_definite_containers",
 #if PROP == 7
                  [VC_USER + 24] = "encoder_buffer_sizes_tried", [VC_USER + 25] = "encoder_calls_with_too_small_buffer",
 #endif
